@@ -31,6 +31,19 @@ def _pmap_device_order():
   return jax.local_devices()
 
 
+def _stack_on_devices(shards, devices):
+  """Stacks one shard per device along a new leading axis (shard i on devices[i])."""
+  shards = [jnp.asarray(x) for x in shards]
+  mesh = jax.sharding.Mesh(np.array(devices), ('_devices',))
+  sharding = jax.sharding.NamedSharding(
+    mesh, jax.sharding.PartitionSpec('_devices')
+  )
+  buffers = [jax.device_put(x[None], d) for x, d in zip(shards, devices)]
+  return jax.make_array_from_single_device_arrays(
+    (len(devices), *shards[0].shape), sharding, buffers
+  )
+
+
 def replicate(tree, devices=None):
   """Replicates arrays to multiple devices.
 
@@ -42,7 +55,12 @@ def replicate(tree, devices=None):
     A new pytree containing the replicated arrays.
   """
   devices = devices or _pmap_device_order()
-  return jax.device_put_replicated(tree, devices)
+  if hasattr(jax, 'device_put_replicated'):
+    return jax.device_put_replicated(tree, devices)
+  # jax.device_put_replicated was removed from newer JAX versions.
+  return jax.tree_util.tree_map(
+    lambda x: _stack_on_devices([x] * len(devices), devices), tree
+  )
 
 
 def unreplicate(tree):
